@@ -111,14 +111,15 @@ def checkWeather (e : Envelope) (w : Wx) : Bool :=
 
 /-! ### the day -/
 
-/-- static description of a method as far as `deploy_crews` reads it -/
+/-- static description of a method as far as `deploy_crews` reads it.  The four method classes
+(`Method`, site-, equipment-group- and component-level) run the same loop, so the measurement scale is
+not a parameter of the model; that they do is what the four-class correspondence checks. -/
 structure MethodP where
   stationary : Bool
   perSite : Bool            -- cost_type == PER_SITE_COST (else PER_DAY_COST)
   unitCost : Int            -- self.cost
   considerWeather : Bool
   env : Envelope
-  scale : Nat := 0          -- 0 Method, 1 site, 2 equipment, 3 component (same loop for all four)
   deriving DecidableEq, Repr, Inhabited
 
 /-- one planned request of the work plan with the inputs its visit will see -/
